@@ -193,7 +193,20 @@ Value& MemberCONCATExpression::value(Context& ctx) const
       case Type::INTEGER:
         if (a0_type == Type::NUMERIC && rv_type.level() == 1)
         {
-          rv->push_back(a0.isNull() ? Value(Value::type_integer) : Value(Value::toInteger(*a0.numeric())));
+          /* a decimal out of the integer range is refused: see below */
+          try
+          {
+            rv->push_back(a0.isNull() ? Value(Value::type_integer) : Value(Value::toInteger(*a0.numeric())));
+          }
+          catch (RuntimeError&)
+          {
+            if (materialized)
+            {
+              const Type null_type = val.type();
+              val.swap(Value(null_type).to_lvalue(val.lvalue()));
+            }
+            throw;
+          }
           return val;
         }
         else if (a0.type() == Type::NO_TYPE)
